@@ -15,6 +15,35 @@ import (
 
 type ruleFn func(w *World, r *Report)
 
+// thoroughExtras: what the thorough tier adds to the quick rule run (see DESIGN.md §3.3).
+func thoroughExtras(w *World, r *Report, vdir, repo string) {
+	if len(r.Viol) == 0 || allKnown(r, vdir) {
+		rs := replaySeeds(r.Prop, vdir, repo)
+		checkReplay(r.Prop, rs)
+		if r.Extra == nil {
+			r.Extra = map[string]interface{}{}
+		}
+		r.Extra["seed_replay"] = rs
+		r.Extra["seeded_changes_replayed"] = len(rs)
+	}
+	bceCrossCheck(w, r, repo)
+}
+
+func allKnown(r *Report, vdir string) bool {
+	known := map[string]bool{}
+	for _, e := range loadKnown(vdir) {
+		if e.Kind == "finding" && e.Property == r.Prop {
+			known[e.Key] = true
+		}
+	}
+	for _, v := range r.Viol {
+		if !known[v.Key] {
+			return false
+		}
+	}
+	return true
+}
+
 var rules = map[string]ruleFn{}
 
 func main() {
@@ -73,6 +102,9 @@ func main() {
 	r := newReport(*prop, *tier, seed)
 	fn(w, r)
 	r.evDir = *out
+	if *tier == "thorough" {
+		thoroughExtras(w, r, vdir, *repo)
+	}
 	if *verbose {
 		for _, o := range r.Obls {
 			st := "ok "
